@@ -28,6 +28,8 @@ type c11Case struct {
 	main  string            // workflow file name
 	input []byte            // if non-nil, the parsed workflow is run with this input
 	abs   bool              // refer to sub-workflows by absolute path
+	valid bool              // the files form a valid workflow tree: it must parse and run to its success output
+	missing string          // the file that must be reported missing
 }
 
 type c11Outcome struct {
@@ -283,6 +285,12 @@ func c11Unit(name string, gen func() []*c11Case) *Unit {
 			case o.panicked != "":
 				key = name + "/panic/" + firstEngineFrame(o.stack)
 				detail = fmt.Sprintf("panic: %s\n%s", short(o.panicked, 300), short(o.stack, 1500))
+			case c.valid && (!o.parsed || o.err != ""):
+				key = name + "/valid-tree-rejected/" + c.name
+				detail = "every referenced sub-workflow file is present in the context directory, yet parsing/running failed: " + short(o.err, 400)
+			case c.missing != "" && (o.parsed || !strings.Contains(o.err, c.missing)):
+				key = name + "/missing-file-not-reported/" + c.name
+				detail = fmt.Sprintf("sub-workflow file %s does not exist; expected an error naming it, got parsed=%v err=%q", c.missing, o.parsed, short(o.err, 300))
 			}
 			if key != "" && !seen[key] {
 				seen[key] = true
@@ -327,16 +335,16 @@ func c11SubworkflowCases() []*c11Case {
 	}
 	in := []byte("n: 3\n")
 	cs := []*c11Case{
-		{name: "depth1", main: "w.yaml", input: in, files: map[string][]byte{"w.yaml": []byte(root("a.yaml")), "a.yaml": []byte(leaf)}},
-		{name: "depth2", main: "w.yaml", input: in, files: map[string][]byte{"w.yaml": []byte(root("a.yaml")), "a.yaml": []byte(loopTo("b.yaml", "")), "b.yaml": []byte(leaf)}},
-		{name: "depth3", main: "w.yaml", input: in, files: map[string][]byte{"w.yaml": []byte(root("a.yaml")), "a.yaml": []byte(loopTo("b.yaml", "")), "b.yaml": []byte(loopTo("c.yaml", "")), "c.yaml": []byte(leaf)}},
-		{name: "depth4", main: "w.yaml", input: in, files: map[string][]byte{"w.yaml": []byte(root("a.yaml")), "a.yaml": []byte(loopTo("b.yaml", "")), "b.yaml": []byte(loopTo("c.yaml", "")), "c.yaml": []byte(loopTo("d.yaml", "")), "d.yaml": []byte(leaf)}},
-		{name: "diamond", main: "w.yaml", input: in, files: map[string][]byte{"w.yaml": []byte(two("a.yaml", "b.yaml")), "a.yaml": []byte(loopTo("c.yaml", "")), "b.yaml": []byte(loopTo("c.yaml", "")), "c.yaml": []byte(leaf)}},
-		{name: "two-nested-siblings", main: "w.yaml", input: in, files: map[string][]byte{"w.yaml": []byte(two("a.yaml", "b.yaml")), "a.yaml": []byte(loopTo("a2.yaml", "")), "b.yaml": []byte(loopTo("b2.yaml", "")), "a2.yaml": []byte(leaf), "b2.yaml": []byte(leaf)}},
-		{name: "same-twice", main: "w.yaml", input: in, files: map[string][]byte{"w.yaml": []byte(two("a.yaml", "a.yaml")), "a.yaml": []byte(leaf)}},
-		{name: "missing-file", main: "w.yaml", files: map[string][]byte{"w.yaml": []byte(root("nothere.yaml"))}},
-		{name: "missing-nested", main: "w.yaml", files: map[string][]byte{"w.yaml": []byte(root("a.yaml")), "a.yaml": []byte(loopTo("nothere.yaml", ""))}},
-		{name: "subdir", main: "w.yaml", input: in, files: map[string][]byte{"w.yaml": []byte(root("sub/a.yaml")), "sub/a.yaml": []byte(leaf)}},
+		{name: "depth1", valid: true, main: "w.yaml", input: in, files: map[string][]byte{"w.yaml": []byte(root("a.yaml")), "a.yaml": []byte(leaf)}},
+		{name: "depth2", valid: true, main: "w.yaml", input: in, files: map[string][]byte{"w.yaml": []byte(root("a.yaml")), "a.yaml": []byte(loopTo("b.yaml", "")), "b.yaml": []byte(leaf)}},
+		{name: "depth3", valid: true, main: "w.yaml", input: in, files: map[string][]byte{"w.yaml": []byte(root("a.yaml")), "a.yaml": []byte(loopTo("b.yaml", "")), "b.yaml": []byte(loopTo("c.yaml", "")), "c.yaml": []byte(leaf)}},
+		{name: "depth4", valid: true, main: "w.yaml", input: in, files: map[string][]byte{"w.yaml": []byte(root("a.yaml")), "a.yaml": []byte(loopTo("b.yaml", "")), "b.yaml": []byte(loopTo("c.yaml", "")), "c.yaml": []byte(loopTo("d.yaml", "")), "d.yaml": []byte(leaf)}},
+		{name: "diamond", valid: true, main: "w.yaml", input: in, files: map[string][]byte{"w.yaml": []byte(two("a.yaml", "b.yaml")), "a.yaml": []byte(loopTo("c.yaml", "")), "b.yaml": []byte(loopTo("c.yaml", "")), "c.yaml": []byte(leaf)}},
+		{name: "two-nested-siblings", valid: true, main: "w.yaml", input: in, files: map[string][]byte{"w.yaml": []byte(two("a.yaml", "b.yaml")), "a.yaml": []byte(loopTo("a2.yaml", "")), "b.yaml": []byte(loopTo("b2.yaml", "")), "a2.yaml": []byte(leaf), "b2.yaml": []byte(leaf)}},
+		{name: "same-twice", valid: true, main: "w.yaml", input: in, files: map[string][]byte{"w.yaml": []byte(two("a.yaml", "a.yaml")), "a.yaml": []byte(leaf)}},
+		{name: "missing-file", missing: "nothere.yaml", main: "w.yaml", files: map[string][]byte{"w.yaml": []byte(root("nothere.yaml"))}},
+		{name: "missing-nested", missing: "nothere.yaml", main: "w.yaml", files: map[string][]byte{"w.yaml": []byte(root("a.yaml")), "a.yaml": []byte(loopTo("nothere.yaml", ""))}},
+		{name: "subdir", valid: true, main: "w.yaml", input: in, files: map[string][]byte{"w.yaml": []byte(root("sub/a.yaml")), "sub/a.yaml": []byte(leaf)}},
 		{name: "dotdot", main: "w.yaml", files: map[string][]byte{"w.yaml": []byte(root("../a.yaml"))}},
 		{name: "workflow-not-a-string", main: "w.yaml", files: map[string][]byte{"w.yaml": []byte(strings.Replace(root("a.yaml"), "workflow: a.yaml", "workflow: [a.yaml]", 1)), "a.yaml": []byte(leaf)}},
 		{name: "workflow-missing-key", main: "w.yaml", files: map[string][]byte{"w.yaml": []byte(strings.Replace(root("a.yaml"), "    workflow: a.yaml\n", "", 1))}},
